@@ -41,6 +41,7 @@ func (c11) Classes() []sim.Class {
 			sim.Class{Name: "one-config-value", Engine: e, Quick: 400, Thorough: 16000, RunTimeoutSec: 120},
 			// threads: a waiter in one instance, notifiers in its siblings (real time: a few runs only)
 			sim.Class{Name: "atomic-wait-notify", Engine: e, Quick: 8, Thorough: 200, RunTimeoutSec: 120},
+			sim.Class{Name: "shared-sock-config", Engine: e, Quick: 40, Thorough: 1500, RunTimeoutSec: 120},
 		)
 	}
 	return cs
@@ -267,6 +268,9 @@ func (c11) Run(t *tape.Tape, cfg sim.Config) (res sim.Result) {
 	}
 	if cfg.Class == "atomic-wait-notify" {
 		return runAtomicWait(t, cfg)
+	}
+	if cfg.Class == "shared-sock-config" {
+		return runSharedSock(t, cfg)
 	}
 	ctx := context.Background()
 	o := plan.Opts{MinFuncs: 3, MaxFuncs: 7, MaxAtoms: 6, Host: true, Traps: true, Exit: true, Grow: true, Table: true, Segments: true, WASI: true, HostTags: 4, GRef: true, Atomics: true, Wide: true}
